@@ -563,6 +563,75 @@ theorem expr_matches (cp : Bool) (env : Nat → Nat × Int)
           · simp [hint] at h
 
 
+/-! ## Values: a Python bool on either side of an integer Var (all values) -/
+
+/-- generated table: a Python bool next to an integer Var (promotion on or off, constant promotion on) is wrapped as a
+    Constant of the Var's own element type; the Var is cast (promotion on) or passed on as it is -/
+theorem int_bool_shape :
+    ∀ tp ∈ [true, false], ∀ b ∈ [true, false], ∀ op ∈ intOps, ∀ da ∈ ints,
+      ((match dispatch info (some (tp, true)) op (.var da) (.pyBool b) with
+        | .ok (tree, d) => tree == arithTree info op da (varTree tp da 0) (.constOf 1 da) && d == da
+        | .error _ => false) &&
+       (match dispatch info (some (tp, true)) op (.pyBool b) (.var da) with
+        | .ok (tree, d) => tree == arithTree info op da (.constOf 0 da) (varTree tp da 1) && d == da
+        | .error _ => false) &&
+       info.integer da && da != boolDt && decide (2 ≤ info.bits da) && inRange info da 1 && inRange info da 0) = true := by
+  decide +kernel
+
+/-- **`x <op> True/False` and `True/False <op> y` on integer Vars** (`+ - * //`; a Python bool is an int: 1 / 0) for all
+    values of the Var: numpy's wrapped exact result in the Var's element type. -/
+theorem arith_bool_right (tp : Bool) (htp : tp ∈ [true, false]) (b : Bool) (op : Op) (hop : op ∈ intOps)
+    (da : Nat) (hda : da ∈ ints) (x : Int) (hx : inRange info da x = true)
+    (hdiv : op = .floordiv → b2i b ≠ 0 ∧ ¬(x = intMin da ∧ b2i b = -1)) :
+    ∃ tree, dispatch info (some (tp, true)) op (.var da) (.pyBool b) = .ok (tree, da) ∧
+      eval info (.var da) (.pyBool b) x (b2i b) tree = some (da, npInt info op da x (b2i b)) := by
+  have hb : b ∈ [true, false] := by cases b <;> simp
+  have h := int_bool_shape tp htp b hb op hop da hda
+  simp only [Bool.and_eq_true, decide_eq_true_eq, bne_iff_ne, ne_eq] at h
+  obtain ⟨⟨⟨⟨⟨⟨hr, _⟩, hint⟩, htb⟩, hbits⟩, h1⟩, h0⟩ := h
+  cases hdisp : dispatch info (some (tp, true)) op (.var da) (.pyBool b) with
+  | error e => simp [hdisp] at hr
+  | ok p =>
+    obtain ⟨tree, d⟩ := p
+    simp only [hdisp, Bool.and_eq_true, beq_iff_eq] at hr
+    obtain ⟨rfl, rfl⟩ := hr
+    refine ⟨_, rfl, ?_⟩
+    have hv : inRange info d (b2i b) = true := by cases b <;> simpa [b2i] using (by assumption)
+    apply arith_eval _ _ op hop d hint htb hbits _ _ x (b2i b) _ _ hx hv hdiv
+    · exact eval_varTree tp _ _ d 0 x (b2i b) hint htb hbits rfl hx
+    · simp [eval, hint]
+
+theorem arith_bool_left (tp : Bool) (htp : tp ∈ [true, false]) (b : Bool) (op : Op) (hop : op ∈ intOps)
+    (da : Nat) (hda : da ∈ ints) (y : Int) (hy : inRange info da y = true)
+    (hdiv : op = .floordiv → y ≠ 0 ∧ ¬(b2i b = intMin da ∧ y = -1)) :
+    ∃ tree, dispatch info (some (tp, true)) op (.pyBool b) (.var da) = .ok (tree, da) ∧
+      eval info (.pyBool b) (.var da) (b2i b) y tree = some (da, npInt info op da (b2i b) y) := by
+  have hb : b ∈ [true, false] := by cases b <;> simp
+  have h := int_bool_shape tp htp b hb op hop da hda
+  simp only [Bool.and_eq_true, decide_eq_true_eq, bne_iff_ne, ne_eq] at h
+  obtain ⟨⟨⟨⟨⟨⟨_, hl⟩, hint⟩, htb⟩, hbits⟩, h1⟩, h0⟩ := h
+  cases hdisp : dispatch info (some (tp, true)) op (.pyBool b) (.var da) with
+  | error e => simp [hdisp] at hl
+  | ok p =>
+    obtain ⟨tree, d⟩ := p
+    simp only [hdisp, Bool.and_eq_true, beq_iff_eq] at hl
+    obtain ⟨rfl, rfl⟩ := hl
+    refine ⟨_, rfl, ?_⟩
+    have hv : inRange info d (b2i b) = true := by cases b <;> simpa [b2i] using (by assumption)
+    apply arith_eval _ _ op hop d hint htb hbits _ _ (b2i b) y _ _ hv hy hdiv
+    · simp [eval, hint]
+    · exact eval_varTree tp _ _ d 1 (b2i b) y hint htb hbits rfl hy
+
+-- non-vacuity: x - True on a uint8 Var (dtype 4) at x = 0 wraps to 255
+example : ∃ tree, dispatch info (some (true, true)) .sub (.var 4) (.pyBool true) = .ok (tree, 4) ∧
+    eval info (.var 4) (.pyBool true) 0 1 tree = some (4, 255) := by
+  obtain ⟨tree, h1, h2⟩ := arith_bool_right true (by simp) true .sub (by simp [intOps]) 4 (by simp [ints]) 0
+    (by decide +kernel) (fun h => by simp at h)
+  refine ⟨tree, h1, ?_⟩
+  change eval info (.var 4) (.pyBool true) 0 (b2i true) tree = _
+  rw [h2]; decide +kernel
+
+
 /-! ## Expressions with Python int literals on either side -/
 
 /-- Expressions over integer Vars **and Python int literals** on either side of an operator. -/
